@@ -651,7 +651,10 @@ def check_tags(repo: Repo, res: Result, parser: ClassInfo, error_cls: ClassInfo,
         res.undecide("C06.R4", construct, f"the text scanned for declarations / arrows is not determined by folding the tag slicing (unmodelled: {interp.unknown[:3]}; may raise: {sorted({r.name for r in hard})})", parse_where)
     else:
         seen = sorted({v for s in subjects for v in s.subject.values()}, key=repr)
-        ok = all(isinstance(v, str) and v.strip() == BODY.strip() for v in seen)
+        # the pipeline may scan the text as a whole or line by line: compare the sets of non-blank lines
+        want_lines = {l.strip() for l in BODY.splitlines() if l.strip()}
+        got_lines = {l.strip() for v in seen if isinstance(v, str) for l in v.splitlines() if l.strip()}
+        ok = all(isinstance(v, str) for v in seen) and got_lines == want_lines
         res.add("C06.R4", construct, ok, "text outside @startuml/@enduml is ignored, text between is kept" if ok else f"the text scanned for declarations / arrows is {seen!r}, not the text between @startuml and @enduml ({BODY!r})", parse_where, kind="regex-language")
     # rejected contents
     for what, content in REJECTED:
